@@ -66,7 +66,7 @@ def _run_conductor(study, batch, calls):
         cmod.sleep = saved
 
 
-def _run_cli(spec, root, batch, opts, dry, extra=None, prompt="-y"):
+def _run_cli(spec, root, batch, opts, dry, extra=None, prompt="-y", background=False):
     """the same through the real command: `maestro run -fg -y [--dry] ...` (maestrowf.maestro.main())"""
     import contextlib
     import io
@@ -101,7 +101,9 @@ def _run_cli(spec, root, batch, opts, dry, extra=None, prompt="-y"):
     with open(path, "w") as f:
         yaml.safe_dump(doc, f, sort_keys=False)
     # `prompt`: how the launch question is answered (-y, -n, or not at all: a dry run does not ask)
-    args = ["maestro", "run", "-fg"] + ([prompt] if prompt else []) + \
+    # `background`: the default way - `maestro run` starts `nohup conductor ...`; the command line it builds is
+    # taken at its word and the real `conductor` entry point runs on its arguments
+    args = ["maestro", "run"] + ([] if background else ["-fg"]) + ([prompt] if prompt else []) + \
            ["-s", "1", "-o", root, "-r", str(opts["rlimit"]), "-t", str(opts["throttle"])]
     if opts["hash_ws"]:
         args.append("--hashws")
@@ -116,6 +118,10 @@ def _run_cli(spec, root, batch, opts, dry, extra=None, prompt="-y"):
     cmod.sleep = sleep
     Conductor.initialize, Conductor.monitor_study = init, mon
     sys.argv = args + [path]
+    launched = []
+    saved_sp = mmod.start_process
+    if background:
+        mmod.start_process = lambda cmd, *a, **kw: launched.append(cmd)
     try:
         try:
             with contextlib.redirect_stdout(io.StringIO()), contextlib.redirect_stderr(io.StringIO()):
@@ -124,7 +130,23 @@ def _run_cli(spec, root, batch, opts, dry, extra=None, prompt="-y"):
             pass
         except Stop:
             seen["ret"] = "NONTERMINATION"
+        if background and len(launched) == 1:
+            import shlex
+            words = shlex.split(launched[0].split(">")[0])
+            if words[:2] == ["nohup", "conductor"]:
+                seen.pop("dag", None)
+                sys.argv = words[1:]
+                try:
+                    with contextlib.redirect_stdout(io.StringIO()), contextlib.redirect_stderr(io.StringIO()):
+                        cmod.main()
+                except SystemExit as e:
+                    if e.code not in (0, None) and "dag" not in seen:
+                        raise RuntimeError("the conductor started by `maestro run` exited with %r on the command "
+                                           "line %r" % (e.code, " ".join(words[1:])))
+                except Stop:
+                    seen["ret"] = "NONTERMINATION"
     finally:
+        mmod.start_process = saved_sp
         cmod.sleep, sys.argv = saved_sleep, argv
         Conductor.initialize, Conductor.monitor_study = orig_init, orig_mon
         for h in list(root_logger.handlers):
@@ -195,7 +217,9 @@ def dry_vs_real(ctx, k):
             if entry == "conductor":
                 ret_d, dag_d = _run_conductor(study_d, batch_of(which), calls)
             else:
-                ret_d, dag_d = _run_cli(spec, root_d, batch_of(which), opts, True, prompt=prompt)
+                background = prompt != "-n" and rng.random() < 0.4
+                ret_d, dag_d = _run_cli(spec, root_d, batch_of(which), opts, True, prompt=prompt,
+                                        background=background)
         except Exception as e:  # noqa  (a staging error such as workspace-before-generated is not C17's:
             # the real run below then fails the same way; if it does not, the dry run is at fault)
             dry_failed = "%s: %s" % (type(e).__name__, e)
